@@ -521,7 +521,7 @@ def interp_stats(I):
 
 def eval_search_cex(pending, assumptions, n, seed=0):
     names = {}
-    for _, c in pending:
+    for c in [c_ for _, c_ in pending] + list(assumptions):
         for v in T.support(c):
             names[v] = T.all_vars()[v].w
     rnd = random.Random(seed + len(names))
